@@ -181,3 +181,70 @@ def check_C11(c):
     c.assumptions += ["handle strings are mapped to small integers by first occurrence (the mapping preserves equality, so uniqueness is decided by TLC)",
                       "os-backed Server: 'touching a file' is observed as a change of the served tree digest; descriptor leaks via /proc/self/fd entries below the served root"]
     return c.finish()
+
+
+def run_crashy(c, test, env=None, timeout=3000, max_restarts=40):
+    """Run a harness test whose cases may kill the process (panic in a package goroutine, runaway allocation).
+    The test flushes a Reset event with its case number before each case; after a crash the driver records the
+    case as crashed and restarts the test behind it.  Returns (path of the merged trace, list of crashed heads)."""
+    merged = os.path.join(c.wd, "rec_%s_merged.ndjson" % test)
+    crashed = []
+    skip = 0
+    with open(merged, "w") as out:
+        for attempt in range(max_restarts):
+            e = dict(env or {})
+            e["VERIF_SKIP"] = skip
+            rc, output, path = c.run(test, env=e, timeout=timeout, out="rec_%s_%d.ndjson" % (test, attempt), allow_fail=True)
+            evs = vlib.read_ndjson(path) if os.path.exists(path) else []
+            if rc == 0:
+                for ev in evs:
+                    ev["t"] = ev.get("t", 0) + attempt * 1000000
+                    out.write(json.dumps(ev) + "\n")
+                break
+            # crashed (or failed): find the last case
+            heads = [ev for ev in evs if ev.get("ev") == "Reset" and "case" in ev]
+            if not heads or ("panic" not in output and "fatal error" not in output and "signal" not in output):
+                raise Machinery("harness %s failed without a panic (rc=%s):\n%s" % (test, rc, output[-4000:]))
+            last = heads[-1]
+            m = re.search(r"(panic: .*|fatal error: .*)", output)
+            stack = output[output.find(m.group(1)):][:3000] if m else output[-3000:]
+            crashed.append({"head": last, "panic": (m.group(1) if m else "?")[:300], "stack": stack})
+            # keep the complete traces before the crashed case
+            for ev in evs:
+                if ev.get("t") == last.get("t"):
+                    break
+                ev["t"] = ev.get("t", 0) + attempt * 1000000
+                out.write(json.dumps(ev) + "\n")
+            skip = last["case"]
+        else:
+            raise Machinery("too many crashes (%d) in %s" % (len(crashed), test))
+    return merged, crashed
+
+
+def check_C07(c):
+    c.model("PktMgr", "PktMgr.quick.cfg", note="exhaustive incl. malformed packets (kind X): a malformed packet is never dispatched, pipeline terminates")
+    c.model("PktMgr", "PktMgr.abl_StopOnMalformed.cfg", must="fail", expect="Inv_C07_NoActOnMalformed", note="Serve loop dispatches a malformed packet")
+    c.model("PktMgr", "PktMgr.live.cfg", note="liveness eof ~> Terminated")
+    path, crashed = run_crashy(c, "TestVerif_Streams", timeout=3000)
+    traces = count_traces(c, path, ["server", "soft", "base", "mut"])
+    c.cov["rule"] = ("a case is one mutated byte stream (cut offset / length field value / type byte / garbage) of a recorded valid session, on one server "
+                     "configuration, run twice (mutated stream; its well-formed prefix alone); distinct = distinct (server, base session, mutation)")
+    for cr in crashed:
+        h = cr["head"]
+        site = re.findall(r"github.com/pkg/sftp\.(\S+?)\(", cr["stack"])
+        key = "panic,server=%s,site=%s" % (h.get("server"), site[0] if site else "?")
+        c.violation(key, "process crashed on stream case %s (%s %s): %s" % (h.get("case"), h.get("base"), h.get("mut"), cr["panic"]),
+                    {"case": h, "panic": cr["panic"], "stack": cr["stack"]})
+    c.cov["harness"]["crashed_cases"] = len(crashed)
+    found = c.validate("TraceStream", "TraceStream.cfg", path)
+    for f in found:
+        head = f["trace"][0] if f["trace"] else {}
+        st = f["state"]
+        which = {"Inv_C07_ServeReturns": "ret", "Inv_C07_Released": "leak", "Inv_C07_NoActOnMalformed": "acted", "Inv_C07_PrefixResponses": "extra"}.get(f["invariant"])
+        key = "%s,server=%s" % (f["invariant"], head.get("server"))
+        c.violation(key, "%s: %s on stream case %s %s" % (f["invariant"], st.get(which, ""), head.get("base"), head.get("mut")),
+                    {"module": "TraceStream", "invariant": f["invariant"], "tlc_state": st, "case": head, "trace": f["trace"][:300]})
+    c.assumptions += ["well-formedness of a frame is decided by the harness's independent codec (unknown packet types and short bodies are malformed; trailing bytes are tolerated)",
+                      "a packet whose attribute block is shorter than its flags announce is only subject to the crash/leak/return clauses (the package decodes attributes lazily and answers with an error status)",
+                      "state comparison excludes time stamps; statvfs numbers are masked"]
+    return c.finish()
